@@ -125,27 +125,37 @@ func (c *Ctx) SNBTSuffix() []core.Ob {
 		}
 		for _, hb := range c.withHelpers(ws.pkg, cc, ws.decl, 2) {
 			info := hb.pk.TypesInfo
+			// a string literal or a named string constant (const byteSuffix = "B")
+			strOf := func(x ast.Expr) (string, bool) {
+				x = ast.Unparen(x)
+				switch x.(type) {
+				case *ast.BasicLit, *ast.Ident, *ast.SelectorExpr:
+				default:
+					return "", false
+				}
+				tv, ok := info.Types[x]
+				if !ok || tv.Value == nil || tv.Value.Kind() != constant.String {
+					return "", false
+				}
+				return constant.StringVal(tv.Value), true
+			}
 			ast.Inspect(hb.node, func(n ast.Node) bool {
 				switch v := n.(type) {
 				case *ast.BinaryExpr:
 					// number + "B"
 					if v.Op == token.ADD {
-						if bl, ok := v.Y.(*ast.BasicLit); ok && bl.Kind == token.STRING {
-							if s, err := strconv.Unquote(bl.Value); err == nil && isSuffix(s) {
-								e.suffixes = append(e.suffixes, s)
-							}
+						if s, ok := strOf(v.Y); ok && isSuffix(s) {
+							e.suffixes = append(e.suffixes, s)
 						}
 					}
 				case *ast.CallExpr:
 					// WriteString("[B;") and the like; a one-letter literal handed to a helper or closure (putInt(v, "B", err))
 					for _, a := range v.Args {
-						if bl, ok := a.(*ast.BasicLit); ok && bl.Kind == token.STRING {
-							if s, err := strconv.Unquote(bl.Value); err == nil {
-								if sel, ok := v.Fun.(*ast.SelectorExpr); ok && sel.Sel.Name == "WriteString" && isSuffix(s) {
-									continue // a separator or a letter written on its own, not a suffix
-								}
-								note(s)
+						if s, ok := strOf(a); ok {
+							if sel, ok := v.Fun.(*ast.SelectorExpr); ok && sel.Sel.Name == "WriteString" && isSuffix(s) {
+								continue // a separator or a letter written on its own, not a suffix
 							}
+							note(s)
 						}
 					}
 				case *ast.Ident:
@@ -337,6 +347,65 @@ func (c *Ctx) SNBTSuffix() []core.Ob {
 			if arr {
 				prefTables = append(prefTables, tb)
 			}
+		}
+	}
+	// ... or one table of rows {prefix character, array tag, ...} that a lookup helper scans
+	if pk := c.P.Pkg("nbt"); pk != nil {
+		for _, f := range pk.Syntax {
+			ast.Inspect(f, func(n ast.Node) bool {
+				cl, ok := n.(*ast.CompositeLit)
+				if !ok || len(cl.Elts) < 2 {
+					return true
+				}
+				tb := map[int64]string{}
+				for _, el := range cl.Elts {
+					if kv, isKV := el.(*ast.KeyValueExpr); isKV {
+						// map[byte]byte{'B': TagByteArray}
+						if ktv, ok := pk.TypesInfo.Types[kv.Key]; ok && ktv.Value != nil {
+							if name, _, isTag := tagConst(pk.TypesInfo, kv.Value); isTag {
+								if ch, ok := constant.Int64Val(ktv.Value); ok {
+									tb[ch] = name
+								}
+							}
+						}
+						continue
+					}
+					row, ok := el.(*ast.CompositeLit)
+					if !ok {
+						return true
+					}
+					ch, tag := int64(-1), ""
+					for _, fe := range row.Elts {
+						if kv, isKV := fe.(*ast.KeyValueExpr); isKV {
+							fe = kv.Value
+						}
+						if name, _, isTag := tagConst(pk.TypesInfo, fe); isTag {
+							if tag == "" && strings.HasSuffix(name, "Array") {
+								tag = name
+							}
+							continue
+						}
+						if bl, isLit := ast.Unparen(fe).(*ast.BasicLit); isLit && bl.Kind == token.CHAR {
+							if tv, ok := pk.TypesInfo.Types[fe]; ok && tv.Value != nil {
+								ch, _ = constant.Int64Val(tv.Value)
+							}
+						}
+					}
+					if ch >= 0 && tag != "" {
+						tb[ch] = tag
+					}
+				}
+				nPref := 0
+				for _, ch := range []int64{'B', 'I', 'L'} {
+					if v, ok := tb[ch]; ok && strings.HasSuffix(v, "Array") {
+						nPref++
+					}
+				}
+				if nPref >= 2 {
+					prefTables = append(prefTables, tb)
+				}
+				return true
+			})
 		}
 	}
 	po := mk("array-prefix-tables", "the typed-array prefixes B/I/L mean ByteArray/IntArray/LongArray in the writer, in TagType() and in the parser alike")
